@@ -1,7 +1,10 @@
 SPECIFICATION MSpec
 CONSTANTS Names = {"x", "y"}
           LeafIds = {1}
+          DirIds = {0}
           MaxDepth = 2
+          NShards = 1
+          Shard = 0
           AllPairs = FALSE
           Devs = {"Dev_C14_DataIgnored"}
 INVARIANTS AsBuiltOK
